@@ -221,13 +221,13 @@ impl ops::Add for &Object {
 
     fn add(self, other: &Object) -> Object {
         match (self, other) {
-            (&Object::Integer(a), &Object::Integer(b)) => Object::Integer(a + b),
+            (&Object::Integer(a), &Object::Integer(b)) => Object::Integer(a.wrapping_add(b)),
             (&Object::Float(a), &Object::Float(b)) => Object::Float(a + b),
             (&Object::Integer(a), &Object::Float(b)) => Object::Float(a as f64 + b),
             (&Object::Float(a), &Object::Integer(b)) => Object::Float(a + b as f64),
-            (&Object::Byte(a), &Object::Byte(b)) => Object::Byte(a + b),
-            (&Object::Integer(a), &Object::Byte(b)) => Object::Integer(a + b as i64),
-            (&Object::Byte(a), &Object::Integer(b)) => Object::Integer(a as i64 + b),
+            (&Object::Byte(a), &Object::Byte(b)) => Object::Byte(a.wrapping_add(b)),
+            (&Object::Integer(a), &Object::Byte(b)) => Object::Integer(a.wrapping_add(b as i64)),
+            (&Object::Byte(a), &Object::Integer(b)) => Object::Integer((a as i64).wrapping_add(b)),
             (&Object::Float(a), &Object::Byte(b)) => Object::Float(a + b as f64),
             (&Object::Byte(a), &Object::Float(b)) => Object::Float(a as f64 + b),
             _ => panic!("Invalid binary operation"),
@@ -239,13 +239,13 @@ impl ops::Sub for &Object {
     type Output = Object;
     fn sub(self, other: &Object) -> Object {
         match (self, other) {
-            (&Object::Integer(a), &Object::Integer(b)) => Object::Integer(a - b),
+            (&Object::Integer(a), &Object::Integer(b)) => Object::Integer(a.wrapping_sub(b)),
             (&Object::Float(a), &Object::Float(b)) => Object::Float(a - b),
             (&Object::Integer(a), &Object::Float(b)) => Object::Float(a as f64 - b),
             (&Object::Float(a), &Object::Integer(b)) => Object::Float(a - b as f64),
-            (&Object::Byte(a), &Object::Byte(b)) => Object::Byte(a - b),
-            (&Object::Integer(a), &Object::Byte(b)) => Object::Integer(a - b as i64),
-            (&Object::Byte(a), &Object::Integer(b)) => Object::Integer(a as i64 - b),
+            (&Object::Byte(a), &Object::Byte(b)) => Object::Byte(a.wrapping_sub(b)),
+            (&Object::Integer(a), &Object::Byte(b)) => Object::Integer(a.wrapping_sub(b as i64)),
+            (&Object::Byte(a), &Object::Integer(b)) => Object::Integer((a as i64).wrapping_sub(b)),
             (&Object::Float(a), &Object::Byte(b)) => Object::Float(a - b as f64),
             (&Object::Byte(a), &Object::Float(b)) => Object::Float(a as f64 - b),
             _ => panic!("Invalid binary operation"),
@@ -257,13 +257,13 @@ impl ops::Mul for &Object {
     type Output = Object;
     fn mul(self, other: &Object) -> Object {
         match (self, other) {
-            (&Object::Integer(a), &Object::Integer(b)) => Object::Integer(a * b),
+            (&Object::Integer(a), &Object::Integer(b)) => Object::Integer(a.wrapping_mul(b)),
             (&Object::Float(a), &Object::Float(b)) => Object::Float(a * b),
             (&Object::Integer(a), &Object::Float(b)) => Object::Float(a as f64 * b),
             (&Object::Float(a), &Object::Integer(b)) => Object::Float(a * b as f64),
-            (&Object::Byte(a), &Object::Byte(b)) => Object::Byte(a * b),
-            (&Object::Integer(a), &Object::Byte(b)) => Object::Integer(a * b as i64),
-            (&Object::Byte(a), &Object::Integer(b)) => Object::Integer(a as i64 * b),
+            (&Object::Byte(a), &Object::Byte(b)) => Object::Byte(a.wrapping_mul(b)),
+            (&Object::Integer(a), &Object::Byte(b)) => Object::Integer(a.wrapping_mul(b as i64)),
+            (&Object::Byte(a), &Object::Integer(b)) => Object::Integer((a as i64).wrapping_mul(b)),
             (&Object::Float(a), &Object::Byte(b)) => Object::Float(a * b as f64),
             (&Object::Byte(a), &Object::Float(b)) => Object::Float(a as f64 * b),
             _ => panic!("Invalid binary operation"),
@@ -275,13 +275,13 @@ impl ops::Div for &Object {
     type Output = Object;
     fn div(self, other: &Object) -> Object {
         match (self, other) {
-            (&Object::Integer(a), &Object::Integer(b)) => Object::Integer(a / b),
+            (&Object::Integer(a), &Object::Integer(b)) => Object::Integer(a.wrapping_div(b)),
             (&Object::Float(a), &Object::Float(b)) => Object::Float(a / b),
             (&Object::Integer(a), &Object::Float(b)) => Object::Float(a as f64 / b),
             (&Object::Float(a), &Object::Integer(b)) => Object::Float(a / b as f64),
-            (&Object::Byte(a), &Object::Byte(b)) => Object::Byte(a / b),
-            (&Object::Integer(a), &Object::Byte(b)) => Object::Integer(a / b as i64),
-            (&Object::Byte(a), &Object::Integer(b)) => Object::Integer(a as i64 / b),
+            (&Object::Byte(a), &Object::Byte(b)) => Object::Byte(a.wrapping_div(b)),
+            (&Object::Integer(a), &Object::Byte(b)) => Object::Integer(a.wrapping_div(b as i64)),
+            (&Object::Byte(a), &Object::Integer(b)) => Object::Integer((a as i64).wrapping_div(b)),
             (&Object::Float(a), &Object::Byte(b)) => Object::Float(a / b as f64),
             (&Object::Byte(a), &Object::Float(b)) => Object::Float(a as f64 / b),
             _ => panic!("Invalid binary operation"),
@@ -293,13 +293,13 @@ impl ops::Rem for &Object {
     type Output = Object;
     fn rem(self, other: &Object) -> Object {
         match (self, other) {
-            (&Object::Integer(a), &Object::Integer(b)) => Object::Integer(a % b),
+            (&Object::Integer(a), &Object::Integer(b)) => Object::Integer(a.wrapping_rem(b)),
             (&Object::Float(a), &Object::Float(b)) => Object::Float(a % b),
             (&Object::Integer(a), &Object::Float(b)) => Object::Float(a as f64 % b),
             (&Object::Float(a), &Object::Integer(b)) => Object::Float(a % b as f64),
-            (&Object::Byte(a), &Object::Byte(b)) => Object::Byte(a % b),
-            (&Object::Integer(a), &Object::Byte(b)) => Object::Integer(a % b as i64),
-            (&Object::Byte(a), &Object::Integer(b)) => Object::Integer(a as i64 % b),
+            (&Object::Byte(a), &Object::Byte(b)) => Object::Byte(a.wrapping_rem(b)),
+            (&Object::Integer(a), &Object::Byte(b)) => Object::Integer(a.wrapping_rem(b as i64)),
+            (&Object::Byte(a), &Object::Integer(b)) => Object::Integer((a as i64).wrapping_rem(b)),
             (&Object::Float(a), &Object::Byte(b)) => Object::Float(a % b as f64),
             (&Object::Byte(a), &Object::Float(b)) => Object::Float(a as f64 % b),
             _ => panic!("Invalid binary operation"),
@@ -311,7 +311,7 @@ impl ops::Neg for &Object {
     type Output = Object;
     fn neg(self) -> Object {
         match *self {
-            Object::Integer(a) => Object::Integer(-a),
+            Object::Integer(a) => Object::Integer(a.wrapping_neg()),
             Object::Float(f) => Object::Float(-f),
             _ => panic!("Invalid binary operation"),
         }
@@ -359,8 +359,8 @@ impl ops::Shl<&Object> for &Object {
 
     fn shl(self, rhs: &Object) -> Object {
         match (self, rhs) {
-            (&Object::Integer(a), Object::Integer(b)) => Object::Integer(a << b),
-            (&Object::Byte(a), &Object::Byte(b)) => Object::Byte(a << b),
+            (&Object::Integer(a), Object::Integer(b)) => Object::Integer(a.wrapping_shl(*b as u32)),
+            (&Object::Byte(a), &Object::Byte(b)) => Object::Byte(a.wrapping_shl(b as u32)),
             _ => panic!("Invalid bitwise operation"),
         }
     }
@@ -371,8 +371,8 @@ impl ops::Shr<&Object> for &Object {
 
     fn shr(self, rhs: &Object) -> Object {
         match (self, rhs) {
-            (&Object::Integer(a), Object::Integer(b)) => Object::Integer(a >> b),
-            (&Object::Byte(a), &Object::Byte(b)) => Object::Byte(a >> b),
+            (&Object::Integer(a), Object::Integer(b)) => Object::Integer(a.wrapping_shr(*b as u32)),
+            (&Object::Byte(a), &Object::Byte(b)) => Object::Byte(a.wrapping_shr(b as u32)),
             _ => panic!("Invalid bitwise operation"),
         }
     }
